@@ -441,6 +441,15 @@ fn open_fds() -> BTreeSet<RawFd> {
     s
 }
 
+fn sock_ino(fd: RawFd) -> u64 {
+    let mut st: libc::stat = unsafe { std::mem::zeroed() };
+    if unsafe { libc::fstat(fd, &mut st) } == 0 {
+        st.st_ino as u64
+    } else {
+        0
+    }
+}
+
 fn fionread(fd: RawFd) -> i32 {
     let mut n: libc::c_int = 0;
     let r = unsafe { libc::ioctl(fd, libc::FIONREAD, &mut n) };
@@ -864,7 +873,9 @@ impl<'a> World<'a> {
                 c.consumed_before_poll = c.sent.len().saturating_sub(unread);
             }
         }
-        let before: BTreeSet<RawFd> = self.server_table().iter().map(|e| e.0).collect();
+        // connections are identified by (descriptor number, socket inode): a number released and
+        // handed out again within one call names a different connection
+        let before: BTreeSet<(RawFd, u64)> = self.server_table().iter().map(|e| (e.0, sock_ino(e.0))).collect();
         let before_states: BTreeMap<RawFd, u8> = self.server_table().iter().map(|e| (e.0, e.1)).collect();
         let code = match order {
             1000 => micro_http::verif::ORDER_REVERSE,
@@ -888,11 +899,11 @@ impl<'a> World<'a> {
             self.polls_after_kill += 1;
         }
         let table = self.server_table();
-        let after: BTreeSet<RawFd> = table.iter().map(|e| e.0).collect();
+        let after: BTreeSet<(RawFd, u64)> = table.iter().map(|e| (e.0, sock_ino(e.0))).collect();
         if table.len() >= 10 {
             self.facts |= 1 << 17;
         }
-        for fd in before.difference(&after) {
+        for (fd, _) in before.difference(&after) {
             self.released_fds.insert(*fd);
             for c in self.clients.iter_mut() {
                 if c.server_fd == Some(*fd) {
@@ -918,7 +929,7 @@ impl<'a> World<'a> {
             // waiting clients one call handles, and whether a call that reports shutdown handled
             // the listener at all, is the implementation's business.
             let _ = (listener_pos, kill_pos);
-            let mut newfds: Vec<RawFd> = after.difference(&before).cloned().collect();
+            let mut newfds: Vec<RawFd> = after.difference(&before).map(|e| e.0).collect();
             newfds.sort();
             let hung_up = |fd: RawFd| -> bool {
                 let mut pfd = libc::pollfd { fd, events: libc::POLLIN | 0x2000, revents: 0 };
